@@ -245,8 +245,8 @@ def _free_port(ctx):
     return ports.free_port(ctx.shard, ctx.nshards)
 
 
-def _recv_frames(sock, want, timeout=3.0):
-    """Read until `want(frames)` is true or timeout; returns frames."""
+def _recv_frames(sock, want, timeout=3.0, info=None):
+    """Read until `want(frames)` is true or timeout; returns frames. info['closed'] is set when the connection ended."""
     buf = b""
     sock.settimeout(0.05)
     end = time.monotonic() + timeout
@@ -255,11 +255,15 @@ def _recv_frames(sock, want, timeout=3.0):
         try:
             chunk = sock.recv(65536)
             if not chunk:
+                if info is not None:
+                    info["closed"] = True
                 break
             buf += chunk
         except (socket.timeout, BlockingIOError):
             pass
         except OSError:
+            if info is not None:
+                info["closed"] = True
             break
         frames, _ = wire.parse_hsms_stream(buf)
         if want(frames):
@@ -346,7 +350,10 @@ def _scenario_b(ctx, inj, idx, state):
                 time.sleep(0.02)
         return None
 
+    select_info = {}
+
     def do_select(sock, system):
+        select_info.clear()
         if active:
             fr = _recv_frames(sock, lambda f: any(x.stype == wire.SELECT_REQ for x in f))
             req = [x for x in fr if x.stype == wire.SELECT_REQ]
@@ -357,8 +364,12 @@ def _scenario_b(ctx, inj, idx, state):
             while time.monotonic() < end and ep.state != "CONNECTED_SELECTED":
                 time.sleep(0.005)
             return ep.state == "CONNECTED_SELECTED"
-        sock.sendall(wire.hsms_control(wire.SELECT_REQ, system))
-        fr = _recv_frames(sock, lambda f: any(x.stype == wire.SELECT_RSP and x.system == system for x in f))
+        try:
+            sock.sendall(wire.hsms_control(wire.SELECT_REQ, system))
+        except OSError:
+            select_info["closed"] = True
+            return False
+        fr = _recv_frames(sock, lambda f: any(x.stype == wire.SELECT_RSP and x.system == system for x in f), info=select_info)
         return any(x.stype == wire.SELECT_RSP and x.system == system for x in fr)
 
     def fail(what, threads=()):
@@ -394,12 +405,40 @@ def _scenario_b(ctx, inj, idx, state):
                 return
         else:
             cycles = 3 if kind == "cycles" else 1
-            for cyc in range(cycles):
+            if rng.random() < 0.35:
+                # a connection that ends before the session was selected: the peer leaves the Select.req of an active endpoint
+                # unanswered (or, towards a passive one, never sends its own) and closes. The next connection must select.
                 sock = peer_connect()
                 if sock is None:
-                    fail(f"no-connection-in-cycle-{min(cyc, 1)}")
+                    fail("no-connection-in-cycle-0")
                     return
-                if not do_select(sock, 0x500 + cyc):
+                if active:
+                    _recv_frames(sock, lambda f: any(x.stype == wire.SELECT_REQ for x in f), timeout=2.0)
+                time.sleep(rng.choice([0.0, 0.05, 0.3]))
+                sock.close()
+                wit["first_connection"] = "closed before it was selected"
+                ctx.count("partB.connection_closed_before_select")
+                end = time.monotonic() + 5
+                while time.monotonic() < end and ep.state != NC:
+                    time.sleep(0.001)
+            for cyc in range(cycles):
+                selected = False
+                for attempt in range(4):
+                    sock = peer_connect()
+                    if sock is None:
+                        fail(f"no-connection-in-cycle-{min(cyc, 1)}")
+                        return
+                    if do_select(sock, 0x500 + cyc + 16 * attempt):
+                        selected = True
+                        break
+                    if not select_info.get("closed") or active:
+                        break
+                    # a passive endpoint serves one connection at a time: a connection that was still waiting in the listen
+                    # queue when the endpoint stopped listening is dropped by the TCP stack; a peer connects again (T5)
+                    ctx.count("partB.connection_dropped_before_it_was_accepted")
+                    sock.close()
+                    time.sleep(0.2)
+                if not selected:
                     fail(f"no-select-in-cycle-{min(cyc, 1)}")
                     sock.close()
                     return
